@@ -92,6 +92,9 @@ type c13Res struct {
 	relCancel, relGoAway, relClose, failedAfter int
 	maxOpen, admitted                           int
 	unackedSettings                             bool
+	// first mismatch of the in-package cross-check, and the history prefix at which it was seen
+	cross       *c13Fail
+	crossEvents []string
 	// calls with an oversize header list
 	bigRejected, bigRejectedWhileParked, bigRejectedAtZero, bigOnWire, bigParked int
 }
@@ -437,6 +440,7 @@ func c13Run(t *testing.T, init int, hls0 uint32, depth int, choose func(step int
 				}
 			}
 			mu.Unlock()
+			crossNow := false
 			// (a') the client's own count of active streams is the wire's: a call that
 			// was rejected locally (or is parked) holds no stream
 			if !connGone {
@@ -449,7 +453,13 @@ func c13Run(t *testing.T, init int, hls0 uint32, depth int, choose func(step int
 				tr.mu.Unlock()
 				sort.Slice(aids, func(i, j int) bool { return aids[i] < aids[j] })
 				if nActive != len(led.open) {
-					fail("C13", "client-active-count-vs-wire", "after %s: the client holds %d active streams %v but %d streams are open on the wire %v", ev, nActive, aids, len(led.open), led.openIDs())
+					// secondary (in-package) check: remembered, reported only if no
+					// property-text oracle fires later in this history
+					crossNow = true
+					if res.cross == nil {
+						res.cross = &c13Fail{"C13", "client-active-count-vs-wire", fmt.Sprintf("after %s: the client holds %d active streams %v but %d streams are open on the wire %v", ev, nActive, aids, len(led.open), led.openIDs())}
+						res.crossEvents = append([]string(nil), res.events...)
+					}
 				}
 			}
 			// (b) a parked call is released, with an error, by ctx cancel / GOAWAY / Close
@@ -519,7 +529,7 @@ func c13Run(t *testing.T, init int, hls0 uint32, depth int, choose func(step int
 				// transport is healthy, i.e. it was woken by the freed quota, failed on its
 				// own, and the wake-up did not reach the calls that are still parked.
 				sub := ""
-				if ev.kind != "cancel" {
+				if ev.kind != "cancel" && !crossNow && res.cross == nil {
 					for _, c := range waiting {
 						if !stillWaiting(c) && c.err != nil && !c.cancelled {
 							sub = "/wakeup-consumed-by-locally-rejected-waiter"
@@ -663,6 +673,11 @@ func TestVerif_C13_MaxStreams(t *testing.T) {
 	report := func(cfg c13Cfg, o *c13Odo, res c13Res) {
 		if res.engine != "" {
 			r.EngineError("init=%s history=%v: %s", cfg, res.events, res.engine)
+		}
+		if len(res.fails) == 0 && res.cross != nil {
+			key := fmt.Sprintf("%s|init=%s|%s", res.cross.class, cfg, strings.Join(res.crossEvents, ","))
+			r.Violation(res.cross.prop, key, fmt.Sprintf("%s\n  initial MAX_CONCURRENT_STREAMS=%s history: %s\n  client frames: %s", res.cross.desc, cfg, strings.Join(res.crossEvents, ","), res.log),
+				c13Replay{Init: cfg.init, HLS: cfg.hls, Choices: append([]int(nil), o.path[:min(len(o.path), len(res.crossEvents))]...), Events: res.crossEvents})
 		}
 		for _, f := range res.fails {
 			key := fmt.Sprintf("%s|init=%s|%s", f.class, cfg, strings.Join(res.events, ","))
